@@ -286,7 +286,11 @@ PROPS = {
                 "value of that position at that depth. Sequences whose reference trees contain a repetition or fifty-move draw, or "
                 "whose roots are drawn, are discarded and counted (the property's precondition). Non-trivial = distinct (root, "
                 "config, table size, sequence) in which at least one probe hit an entry (within a search or written by an earlier "
-                "search of the sequence). evaluations = sequences.",
+                "search of the sequence). C11/engine (table lifetime): ONE engine with Hash 1-2 MB plays 2-4 games (Reset, moves, "
+                "one depth-limited analysis each) around the same position - as played, as a clean FEN, with a half-move clock of "
+                "100-k (outside the property's scope), with evaluation noise (outside the scope); every in-scope analysis must "
+                "report the exhaustive value and a best first move whatever the engine analysed before; non-trivial = a series "
+                "with at least one in-scope analysis after another game. evaluations = sequences.",
         "assumptions": COMMON_ASSUMPTIONS + ["table sizes >= 32 bytes (smaller sizes are not constructible: NewTranspositionTable panics)",
                                              "stored positions are re-valued without their history, which is sound under the property's no-repetition precondition"],
         "level_text": "Exploration: ~4k search sequences (~15k searches) per quick run, from one-slot to 4 MiB tables, each search "
